@@ -271,6 +271,18 @@ harnesses! {
         let r2 = Seq::<Dna>::try_from(st);
         check_parse::<Dna, 1>(&oracle::DNA, &[a], r2);
     }
+    fn c01_q_from_iter_amino_n11 [14] {
+        // collecting more symbols than fit one word for a width that does not divide 64
+        let w = any_words::<2>();
+        let src = arr::<Amino, 21, 2>(w);
+        let s: Seq<Amino> = src[0..11].iter().collect();
+        assert!(s.len() == 11, "C01.from_iter.len");
+        let i = any_usize();
+        assume(i < 11);
+        assert!(s.nth(i).to_bits() == oracle::AMINO.from_bits[sym(&w, 0, 6, i) as usize] as u8, "C01.from_iter.symbols_in_order");
+        reach!(i == 10, "symbol across the word boundary");
+        core::mem::forget(s);
+    }
     fn c01_q_entry_from_iter_dna [10] {
         // FromIterator<A>: two symbolic symbols
         let (a, b) = (any_u8(), any_u8());
